@@ -30,6 +30,7 @@ type harnessEvidence struct {
 	WallSeconds   float64        `json:"wall_seconds"`
 	Asserts       int            `json:"assertion_checks"`
 	Inconclusive  []string       `json:"inconclusive,omitempty"`
+	Unexplored    []string       `json:"unexplored_or_cut_paths,omitempty"`
 	Reached       map[string]int `json:"reachability_witnesses"`
 	Candidates    int            `json:"violation_candidate_classes"`
 	Confirmed     int            `json:"confirmed_by_replay"`
@@ -64,7 +65,10 @@ func (ev *evidence) addHarness(h *harness, res *interp.Result, bounds map[string
 		Paths: res.Paths, Pruned: res.Pruned, Forks: res.Forks, MaxDepth: res.MaxDepth, Steps: res.Steps,
 		Queries: res.Stats.Queries, Sat: res.Stats.Sat, Unsat: res.Stats.Unsat, Unknown: res.Stats.Unknown, SolverErrors: res.Stats.Errors,
 		SolverSeconds: res.Stats.SolveTime.Seconds(), WallSeconds: res.Wall.Seconds(), Asserts: res.Asserts,
-		Inconclusive: res.Inconclusive, Reached: res.Reached, Samples: res.Samples}
+		Reached: res.Reached, Samples: res.Samples}
+	if !h.Tolerant {
+		he.Inconclusive = res.Inconclusive
+	}
 	if he.Solver == "" {
 		he.Solver = "cvc5"
 	}
